@@ -1,6 +1,7 @@
 package main
 
 import (
+	"fmt"
 	"go/token"
 
 	"golang.org/x/tools/go/ssa"
@@ -146,9 +147,34 @@ func c16(r *Run) {
 			}
 			return false, false
 		}
+		nr := 0
 		for _, ins := range allIns(wr) {
-			if ret, ok := ins.(*ssa.Return); ok && lastResultAll(ret, isNilConst) {
-				r.guarded("C16.R2:nil-only-when-enough", "waitRead reports success only after observing Len() >= n", wr, ret, enough, nil, "guarded by Len() < n == false")
+			ret, ok := ins.(*ssa.Return)
+			if !ok {
+				continue
+			}
+			nr++
+			var vals []ssa.Value
+			for _, v := range resultValues(ret, 0) {
+				if phi, isPhi := v.(*ssa.Phi); isPhi {
+					vals = append(vals, phi.Edges...)
+				} else {
+					vals = append(vals, v)
+				}
+			}
+			for _, v := range vals {
+				if isNilConst(v) {
+					r.guarded(fmt.Sprintf("C16.R2:nil-only-when-enough#%d", nr), "waitRead reports success only after observing Len() >= n", wr, ret, enough, nil, "guarded by Len() < n == false")
+					continue
+				}
+				if _, isExc := exceptionErrnoVal(w, v); isExc {
+					continue
+				}
+				// any other returned value must be known non-nil on this path (an error from fill), otherwise it may be a
+				// "success" that was never checked against the wanted size
+				vv := v
+				nonNil := cmpAtom(func(x ssa.Value) bool { return x == vv || seeThroughCell(x) == vv }, isNilConst, neqRel)
+				r.guarded(fmt.Sprintf("C16.R2:returned-error-is-an-error#%d", nr), "a value other than nil returned by waitRead is an error observed to be non-nil (success is only ever reported through the Len() >= n test)", wr, ret, anyAtom(nonNil, enough), nil, "guarded by err != nil")
 			}
 		}
 		// reader methods consume only after waitRead succeeded
